@@ -12,6 +12,8 @@ import DelbDriver.Clone
 import DelbDriver.XPathEval
 import DelbDriver.Attrs
 import DelbDriver.Document
+import DelbDriver.Gc
+import DelbDriver.Wrapping
 open Lean DelbDriver
 
 def dispatch (j : Json) : Except String Json := do
@@ -32,6 +34,8 @@ def dispatch (j : Json) : Except String Json := do
   | "foc" => handleFoc j
   | "attrs" => handleAttrs j
   | "doc" => handleDoc j
+  | "gc" => handleGc j
+  | "wrapser" => handleWrapser j
   | "dropkinds" => handleDropKinds j
   | "tokenize" => handleTokenize j
   | "reduce_content" => handleReduceContent j
